@@ -222,6 +222,44 @@ Proof.
   unfold ideal_pseudo. rewrite map_map. reflexivity.
 Qed.
 
+(* fx_d10: tensor states of ANY per-rank ndims (a 0-dim default next to k-dim data): nobody hangs and
+   every rank merges the others' tensors, delivered with their own shapes *)
+Theorem sync_equals_local_merge_fixed_ndim fx g Wg (ms : nat -> M) (names : list string)
+        (ts : string -> nat -> tensor) : let n := List.length g in
+  fx_d10 fx = true -> n > 1 -> n <= Wg -> NoDup names ->
+  (forall i, i < n -> map fst (sort_keys (sd (ms i))) = names) ->
+  (forall s, In s names -> exists z, forall i, i < n ->
+     assoc s (sd (ms i)) = Some (STensor (ts s i)) /\ wf (shp (ts s i)) (dat (ts s i)) /\ dt (ts s i) = z) ->
+  run_all (respond g) (map (fun i => get_synced_metric M sd mrg fx g n i Wg (ms i)) (seq 0 n))
+  = Some (map (fun i => Ok (mrg (ms i)
+             (map (fun j => map (fun s => (s, GT (ts s j))) names)
+                  (filter (fun r => negb (Nat.eqb r i)) (seq 0 n))))) (seq 0 n)).
+Proof.
+  intros n E10 Hn HW Hnd Hnames H.
+  etransitivity.
+  { apply (sync_equals_local_merge_structural fx g Wg ms names Hn HW Hnd Hnames).
+    intros s Hs. destruct (H s Hs) as (z & Hz). exists (fun i => STensor (ts s i)). split.
+    - intros i Hi. apply (Hz i Hi).
+    - left. exists (ts s), 0, z. intros i Hi. split; [reflexivity|]. destruct (Hz i Hi) as (_ & Hw & Hd).
+      split; [exact Hw|]. split; [exact Hd|left; exact E10]. }
+  fold n. f_equal. apply map_ext. intros i. do 2 f_equal. apply map_ext_in. intros j Hj.
+  apply filter_In in Hj as [Hj _]. apply in_seq in Hj. apply map_ext_in. intros s Hs.
+  destruct (H s Hs) as (z & Hz). unfold state_iv. cbn [snd]. rewrite (proj1 (Hz j ltac:(lia))). reflexivity.
+Qed.
+
+Corollary sync_no_mismatch_fixed_ndim fx g Wg (ms : nat -> M) (names : list string)
+          (ts : string -> nat -> tensor) : let n := List.length g in
+  fx_d10 fx = true -> n > 1 -> n <= Wg -> NoDup names ->
+  (forall i, i < n -> map fst (sort_keys (sd (ms i))) = names) ->
+  (forall s, In s names -> exists z, forall i, i < n ->
+     assoc s (sd (ms i)) = Some (STensor (ts s i)) /\ wf (shp (ts s i)) (dat (ts s i)) /\ dt (ts s i) = z) ->
+  run_all (respond g) (map (fun i => get_synced_metric M sd mrg fx g n i Wg (ms i)) (seq 0 n)) <> None.
+Proof.
+  intros n E10 Hn HW Hnd Hnames H.
+  pose proof (sync_equals_local_merge_fixed_ndim fx g Wg ms names ts E10 Hn HW Hnd Hnames H) as E.
+  fold n in E. rewrite E. discriminate.
+Qed.
+
 Corollary sync_no_mismatch fx g Wg (ms : nat -> M) order iv tl : let n := List.length g in
   n <> 1 -> n <= Wg -> schema_agree fx g Wg (fun i => [(TMP, sd (ms i))]) order iv tl ->
   run_all (respond g) (map (fun i => get_synced_metric M sd mrg fx g n i Wg (ms i)) (seq 0 n)) <> None.
